@@ -269,6 +269,14 @@ auto ramalhete_queue<T, Policies...>::pop() -> std::optional<value_type> {
         break; // No more nodes in the queue
       }
 
+      // _tail must not lag behind _head: the node may only be retired once it is unreachable through _tail
+      // as well, otherwise a push could acquire the already retired node from _tail.
+      marked_ptr t = _tail.load(std::memory_order_relaxed);
+      if (t.get() == h.get()) {
+        // (16) - this release-CAS synchronizes-with the acquire-load (3)
+        _tail.compare_exchange_strong(t, next, std::memory_order_release, std::memory_order_relaxed);
+      }
+
       marked_ptr expected = h;
       // (13) - this release-CAS synchronizes-with the acquire-load (1, 9)
       if (_head.compare_exchange_strong(expected, next, std::memory_order_release, std::memory_order_relaxed)) {
